@@ -159,6 +159,50 @@ def rule_space(ctx, prop):
             rep.inst(f"{g.key} applies create_function_call_trivia", None, cfg, ok=ok)
             if not ok:
                 rep.violation(f"{g.key} call-space-not-applied", f"{c} never applies create_function_call_trivia", g.loc(), cfg)
+                continue
+            # ... on every path: the formatted arguments get the trivia appended unless *they* are known not to be
+            # parenthesised (the option only speaks about the space before `(`)
+            try:
+                res = Enumerator(g, max_paths=20000).run()
+            except TooManyPaths:
+                rep.anchor(False, f"{c}: too many paths", cfg)
+                continue
+            npath = 0
+            bad = set()
+            for st in res:
+                ffa = [b for b, cc, t in st.calls if cc.endswith("formatters::functions::format_function_args")]
+                if not ffa:
+                    continue
+                npath += 1
+                applied = False
+                for b, cc, t in st.calls:
+                    if re.search(r"update_leading_trivia$", cc):
+                        recv = prov_calls(provenance(g, t["args"][0]))
+                        triv = provenance(g, t["args"][1])
+                        # (the trivia vector is built by vec![create_function_call_trivia(ctx)]; the function calls it - checked above)
+                        if any(x.endswith("format_function_args") for x in recv) and \
+                                any(r[0] == "agg" and r[1].endswith("FormatTriviaType::Append") for r in triv):
+                            applied = True
+                if applied:
+                    continue
+                justified = False
+                for k, v in st.hist:
+                    if any(k == f"call:{b}" or k.startswith(f"call:{b}.") for b in ffa):
+                        if (isinstance(v, str) and v != "Parentheses") or \
+                                (isinstance(v, tuple) and v[0] == "not" and "Parentheses" in v[1]):
+                            justified = True
+                if not justified:
+                    cons = sorted(f"{k}={v if isinstance(v, str) else 'not' + str(sorted(v[1]))}" for k, v in st.hist
+                                  if k.startswith("arg:") and (isinstance(v, str) or (isinstance(v, tuple) and v[0] == "not")))
+                    bad.add(tuple(cons))
+            rep.inst(f"{g.key} every path appends the call trivia to the formatted arguments (or they are not parenthesised)",
+                     {"paths": npath}, cfg, ok=not bad)
+            for cons in sorted(bad)[:2]:
+                rep.violation(f"{g.key} call-space-skipped-on-path when={list(cons)}",
+                              f"{c}: on a path ({list(cons) or 'unconditional'}) the formatted arguments are returned without "
+                              f"the space_after_function_names trivia although they may be parenthesised (the test, if any, "
+                              f"is not on the formatted arguments): `f(..)` is emitted where the option asks for `f (..)`",
+                              g.loc(), cfg)
     return rep
 
 
